@@ -52,8 +52,9 @@ class Shuffle:
 class StubTrace:
     """Trace whose callbacks really suspend (k loop iterations each), like a user trace doing I/O."""
 
-    def __init__(self, k: int) -> None:
+    def __init__(self, k: int, fail_reuse: bool = False) -> None:
         self.k = k
+        self.fail_reuse = fail_reuse  # a user callback that raises (its own bug, a timeout of its own ...)
 
     async def _y(self) -> None:
         for _ in range(self.k):
@@ -73,6 +74,8 @@ class StubTrace:
 
     async def send_connection_reuseconn(self) -> None:
         await self._y()
+        if self.fail_reuse:
+            raise RuntimeError("reuse trace callback failed")
 
 
 class Sim:
@@ -150,7 +153,7 @@ class Sim:
     async def _task(self, i: int) -> None:
         self.state[i] = "waiting"
         try:
-            traces = [StubTrace(self.cfg["trace_yields"])] if self.cfg.get("trace_yields") else []
+            traces = [StubTrace(self.cfg["trace_yields"], bool(self.cfg.get("trace_fail_reuse")))] if self.cfg.get("trace_yields") else []
             conn = await self.connector.connect(self.Req(i), traces, self.timeout)
         except asyncio.CancelledError:
             self.state[i] = "cancelled"
@@ -405,6 +408,7 @@ CONFIGS_SMALL = [
     {"hosts": [0, 0, 1, 1], "limit": 2, "lph": 1, "shuffle": 2},
     {"hosts": [0, 0, 0], "limit": 1, "lph": 0, "trace_yields": 1},
     {"hosts": [0, 0, 1], "limit": 2, "lph": 1, "trace_yields": 2},
+    {"hosts": [0, 0, 0], "limit": 2, "lph": 0, "trace_yields": 1, "trace_fail_reuse": True},
 ]
 
 
@@ -418,7 +422,8 @@ def cases(draw):
     n = draw(st.integers(2, 5))
     nh = draw(st.integers(1, 3))
     cfg = {"hosts": [draw(st.integers(0, nh - 1)) for _ in range(n)], "limit": draw(st.integers(0, 3)), "lph": draw(st.integers(0, 2)),
-           "shuffle": draw(st.integers(0, 2)), "force_close": draw(st.booleans()), "trace_yields": draw(st.sampled_from([0, 0, 1, 2]))}
+           "shuffle": draw(st.integers(0, 2)), "force_close": draw(st.booleans()), "trace_yields": draw(st.sampled_from([0, 0, 1, 2])),
+           "trace_fail_reuse": draw(st.integers(0, 3)) == 0}
     ev = st.one_of(
         st.tuples(st.sampled_from(["start", "ok", "ok", "fail", "release", "release", "close", "cancel"]), st.integers(0, n - 1)),
         st.just(("closeall",)),
